@@ -53,6 +53,7 @@ type Contract struct {
 	Clauses  []Clause
 	Inline   []string
 	NoEscape []string // parameters whose backing array must not be retained (stored) by the function
+	TrustPre []string // callees whose preconditions are assumed (not proved) at this function's call sites
 	Flags    map[string]bool
 	File     string
 	Line     int
@@ -82,7 +83,7 @@ var extraImports = map[string]map[string]string{}
 
 var importRe = regexp.MustCompile(`^import\s+(?:(\w+)\s+)?"([^"]+)"$`)
 
-var kwRe = regexp.MustCompile(`^(shared|contract|extern|model|loop|lemma|spec|property|requires|ensures|invariant|assigns|let|decreases|inline|noescape|flag|go|end)\b\s*(.*)$`)
+var kwRe = regexp.MustCompile(`^(shared|contract|extern|model|loop|lemma|spec|property|requires|ensures|invariant|assigns|let|decreases|inline|noescape|trustpre|flag|go|end)\b\s*(.*)$`)
 
 func parseContractFile(path string) ([]*Contract, string, error) {
 	data, err := os.ReadFile(path)
@@ -174,6 +175,12 @@ func parseContractFile(path string) ([]*Contract, string, error) {
 				for _, p := range strings.Split(rest, ",") {
 					if p = strings.TrimSpace(p); p != "" {
 						cur.Inline = append(cur.Inline, p)
+					}
+				}
+			case "trustpre":
+				for _, p := range strings.Split(rest, ",") {
+					if p = strings.TrimSpace(p); p != "" {
+						cur.TrustPre = append(cur.TrustPre, p)
 					}
 				}
 			case "noescape":
@@ -508,6 +515,12 @@ func (c *Contract) resolveSignature(ps *pkgSyntax, src map[string][]byte) error 
 			loc = strings.TrimSpace(h[i+len(" locals "):])
 			h = strings.TrimSpace(h[:i])
 		}
+		// optional explicit signature (for functions defined in a spec block: model programs)
+		sig := ""
+		if i := strings.Index(h, " sig "); i >= 0 {
+			sig = strings.TrimSpace(h[i+len(" sig "):])
+			h = strings.TrimSpace(h[:i])
+		}
 		fs := strings.Fields(h)
 		if len(fs) != 2 {
 			return fmt.Errorf("%s:%d: loop header must be '<Func> <k>'", c.File, c.Line)
@@ -516,6 +529,11 @@ func (c *Contract) resolveSignature(ps *pkgSyntax, src map[string][]byte) error 
 		fmt.Sscanf(fs[1], "%d", &c.LoopOrd)
 		if strings.Contains(c.Target, "$") {
 			return fmt.Errorf("%s:%d: loops in closures are not supported", c.File, c.Line)
+		}
+		if sig != "" {
+			c.ParamText, c.ParamNames = splitParams(sig)
+			c.ExtraText, c.ExtraNames = splitParams(loc)
+			break
 		}
 		fd := ps.findFuncDecl(c.Target)
 		if fd == nil {
